@@ -193,7 +193,7 @@ def _child(i, conn):
         except BaseException as e:      # MemoryError and friends: reported, never swallowed
             box["r"] = _dead_result(i, "worker failed: %s: %s" % (type(e).__name__, str(e)[:200]))
     try:
-        threading.stack_size(1 << 30)
+        threading.stack_size(1 << 29)
         t = threading.Thread(target=body)
         t.start()
         t.join()
@@ -269,7 +269,9 @@ def _limit_memory():
     (MemoryError / solver out-of-memory), not as an exhausted machine (62 GB, no swap, 16 workers)."""
     import resource
     try:
-        gb = float(os.environ.get("VERIF_MEM_GB", "9"))
+        # quick: 9 GB; thorough: 12 GB (the N = 4 token-stream jobs need ~9 GB of heap, and the 512 MB thread stack below
+        # counts against the address space too)
+        gb = float(os.environ.get("VERIF_MEM_GB", "12" if (_CTX and _CTX[1] == "thorough") else "9"))
         lim = int(gb * (1 << 30))
         resource.setrlimit(resource.RLIMIT_AS, (lim, lim))
     except Exception:
